@@ -45,7 +45,10 @@ def check(run):
         "thorough, 4 workers): a response delivered around the moment the read timeout fires (timeout 100us-2ms, offset -40..+60us) and pages "
         "delivered while the handler closes; Send from 4 goroutines while the client connection closes; Send/SendRaw while the server "
         "connection closes; Close of a server connection whose peer streams requests; Close of a client connection whose peer streams events "
-        "or answers requests around their read timeout. Every Send returns a value or an error, every Close returns, the child survives; "
+        "or answers requests around their read timeout; deliver-close (3 s): final responses of 1..3 managed requests delivered on one "
+        "goroutine while the handler is closed on another (close() alone, and cancel of the connection context first, as Close does) - after "
+        "both returned every request must be complete: channel closed and (frame received or Err() != nil), verdict request-stuck with the "
+        "iteration and the request's state. Every Send returns a value or an error, every Close returns, the child survives; "
         "verdict panic carries the panic value and stack (recovered in the caller) or the child's exit status and the runtime's panic message "
         "(library goroutine), close-hangs the stacks after 6 s without progress. Probabilistic: detection rates on the pre-fix code are in "
         "notes/inflight.md. Observed, not judged (evidence notes): Close() called from a connection's own handler; a timed-out request keeps "
